@@ -147,6 +147,8 @@ def r20_4(cx):
         ok = len(sw) == 1 and len(list(f.calls())) == 2
         if ok:
             a, b = sw[0].arg(0).strip(), sw[0].arg(1).strip()
+            if b.kind == 'param':
+                a, b = b, a     # swap is symmetric
             ok = a.kind == 'param' and is_call(b, 'Default>::default')
             r = f.local_expr(0, []).strip()
             ok = ok and is_call(r, 'Default>::default')
